@@ -152,7 +152,9 @@ def _resolve_module_name(ref: str, module: str | None) -> str | None:
     if module != ref and ref.replace(".", "").isidentifier():
         return module
     # Harder path, find the actual object in the stack frame, if possible.
-    obj = frames.extract(ref)
+    #   (Starting at the caller: the library's own frames hold names of their own
+    #   - `T`, `inspect`, ... - which are not what the caller wrote.)
+    obj = frames.extract(ref, frame=frames.getcaller())
     module = getattr(obj, "__module__", None)
     if module:
         return module
